@@ -21,7 +21,23 @@ Oracle (independent of the Lean model): the message list itself — handled once
 in order, as soon as complete, payload intact; exactly the replies of each
 message (its returned register, then one Done with its id) on the transport of
 the connection it arrived on, in completion order; the sequence of values
-returned by recv = the sequence of values sent."""
+returned by recv = the sequence of values sent.
+
+A fourth stream (part `servererr`, model `FramingErr`, driver `framingerr`)
+feeds the same real server messages whose handling FAILS — inside the executor
+(an instruction raises: answered Error + Done by the executioner), outside it
+(StopApp of an application that is not open, an unknown signal, a subroutine
+that cannot be deserialised: errback `log_error`), synchronously or after the
+handler was suspended on the backend — mixed with succeeding messages on 1-3
+connections, and connections whose stream turns into bytes that are not a
+message (unknown type byte, truncated structure, header length too small / too
+large / too short for the payload).  Oracle: every complete message, failing
+or not, is handled once and gets exactly its replies ([returned registers],
+Error iff its handling raised, one Done with its id) on its own connection, in
+completion order; the node is not stopped by a failing message; the
+well-formed traffic of the other connections is unaffected by a connection
+that fails.  What happens to the bytes behind a frame that is not a message is
+compared with the model only (the property gives no guarantee there)."""
 import itertools
 import json
 import logging
@@ -30,9 +46,9 @@ import sys
 
 from .. import core
 
-LEAN_TARGETS = ["SqVerif.Props.C10"]
-PROPS_FILE = "SqVerif/Props/C10.lean"
-DRIVE_TARGETS = ["SqVerif.Drive.Framing"]
+LEAN_TARGETS = ["SqVerif.Props.C10", "SqVerif.Props.C10Err"]
+PROPS_FILE = ["SqVerif/Props/C10.lean", "SqVerif/Props/C10Err.lean"]
+DRIVE_TARGETS = ["SqVerif.Drive.Framing", "SqVerif.Drive.FramingErr"]
 TRUSTED = [
     "model Framing.lean hand-written from factory.py dataReceived/_parse_message, qnodeos.py _return_msg, "
     "connection.py _handle_reply, socket.py _send_raw/_recv_raw; tied by differential execution (this check)",
@@ -40,12 +56,20 @@ TRUSTED = [
     "twisted MemoryReactorClock/StringTransport stand in for the reactor and TCP transports; a dataReceived call = one read",
     "stub virtual node (new_qubit returns a Deferred the harness fires): stands for a handler suspended on the backend",
     "utf-8 / pickle codecs of the classical socket (payload bytes are compared before decoding and after)",
+    "model FramingErr.lean hand-written from factory.py dataReceived/log_error, executioner.py "
+    "_handle_command_exception, netqasm QNodeController._handle_message; tied by differential execution (part servererr)",
+    "how a handler ends (returns / raises inside the executor / raises outside it) is an input of the framing model: "
+    "planned by the generator for judged messages, observed on the real run for frames cut out of garbage",
+    "an exception leaving dataReceived = twisted drops that connection (the harness stops feeding it)",
 ]
 ASSUMPTIONS = [
     "message ids and lengths fit the u32 header fields; a host message is at most 4 GiB",
     "a read from a socket with unread bytes returns at least one byte (TCP); reads on an empty stream block",
     "both ends of an application socket run the same SimulaQron Socket class",
     "order of completion of suspended handlers is the backend's (C03/C09); C10 only asks where and how often replies go",
+    "bytes that are not a host message (bad length field, unknown type, truncated structure) carry no guarantee for "
+    "that connection from the first such byte on; messages complete before it, and all other connections, do",
+    "messages sent after a STOP signal on the same node are outside the property (the node is shutting down)",
 ]
 
 
@@ -91,11 +115,13 @@ class Env:
         twisted.internet.reactor = self.reactor
         logging.disable(logging.CRITICAL)
         from twisted.internet.defer import Deferred
+        from twisted.python.failure import Failure
         from twisted.python import log as tlog
         tlog.startLoggingWithObserver(lambda ev: None, setStdout=False)   # failures of broken code go to the oracle
         from netqasm.backend import messages as M
         from netqasm.lang.parsing.text import parse_text_subroutine
         from netqasm.lang.encoding import OptionalInt, Register
+        from netqasm.lang.parsing import deserialize as deserialize_subroutine
         from netqasm.sdk.shared_memory import SharedMemoryManager
         from simulaqron.netqasm_backend.factory import NetQASMFactory
         from simulaqron.netqasm_backend.qnodeos import SubroutineHandler
@@ -103,6 +129,7 @@ class Env:
         import simulaqron.sdk.socket as sock_mod
         import ctypes
         self.M, self.Deferred, self.StringTransport = M, Deferred, StringTransport
+        self.Failure, self.deserialize_subroutine = Failure, deserialize_subroutine
         self.parse_sub, self.SharedMemoryManager = parse_text_subroutine, SharedMemoryManager
         self.NetQASMFactory, self.SubroutineHandler = NetQASMFactory, SubroutineHandler
         self.conn_mod, self.sock_mod, self.Register = conn_mod, sock_mod, Register
@@ -120,6 +147,15 @@ class Env:
                     pass
         import simulaqron.netqasm_backend.factory as factory_mod
         factory_mod.sys = Quiet
+        self.factory_mod = factory_mod
+        # the payload bytes `_parse_message` cut out for the deserialiser (part servererr: frames cut out of garbage)
+        self.last_raw = [None]
+        real_deser = factory_mod.deserialize_host_msg
+
+        def recording_deser(raw):
+            self.last_raw[0] = bytes(raw)
+            return real_deser(raw)
+        factory_mod.deserialize_host_msg = recording_deser
         # ctypes sizes handed to the model
         self.min_sizes = [len(bytes(M.InitNewAppMessage())), len(bytes(M.OpenEPRSocketMessage())), 1,
                           len(bytes(M.StopAppMessage())), len(bytes(M.SignalMessage()))]
@@ -795,7 +831,425 @@ def gen_socket_cases(env, ctx):
 
 # ----------------------------------------------------------------------------
 
-EXEC = {"server": exec_server, "client": exec_client, "socket": exec_socket}
+
+# ----------------------------------------------------------------------------
+# server, messages whose handling fails / bytes that are not a message
+# ----------------------------------------------------------------------------
+
+def sub_text(env, app, lines):
+    txt = "# NETQASM 1.0\n# APPID %d\n%s" % (app, "".join(ln + "\n" for ln in lines))
+    return bytes(env.M.SubroutineMessage(env.parse_sub(txt)))
+
+
+def emsg(mid, payload, kind, end="ok", regs=(), regs2=(), is_async=False, barrier=False):
+    """one planned host message.  `end`: how its handler ends (ok | caught = an instruction raises, the executioner
+    answers | escapes = the exception leaves handle_netqasm_message); `regs`: registers it returns before the point
+    where it suspends/fails, `regs2`: after a suspension; `barrier`: needs the earlier handlers of its connection finished"""
+    return {"id": mid, "payload": payload.hex(), "kind": kind, "end": end, "regs": list(regs), "regs2": list(regs2),
+            "async": is_async, "barrier": barrier}
+
+
+def failing_payload(env, rng, app, kind):
+    """a complete, well-framed message whose handling fails synchronously: (payload, end, regs)"""
+    M = env.M
+    if kind == "sub-instr":         # an instruction raises (no such qubit): the executioner answers Error, then Done
+        v, lines, regs = rng.randrange(1, 2 ** 20), [], []
+        if rng.random() < 0.5:
+            regs, lines = [v], ["set R0 %d" % v, "ret_reg R0"]
+        lines += ["set Q0 4", rng.choice(["h Q0", "x Q0", "qfree Q0"]), "set R1 7", "ret_reg R1"]
+        return sub_text(env, app, lines), "caught", regs
+    if kind == "sub-noapp":         # a subroutine of an application that was never initialised
+        return sub_text(env, 40 + app, ["set R0 1", "ret_reg R0"]), "caught", []
+    if kind == "stop-unknown":      # StopApp of an application that is not open
+        return bytes(M.StopAppMessage(app_id=50 + app + 3 * rng.randrange(3))), "escapes", []
+    if kind == "signal-unknown":
+        return bytes([M.MessageType.SIGNAL.value, rng.randrange(1, 256)]), "escapes", []
+    assert kind == "sub-garbage"    # a subroutine message whose body is not a subroutine
+    while True:
+        body = bytes(rng.randrange(256) for _ in range(rng.choice([0, 1, 2, 3, 5, 6, 9, 17])))
+        try:
+            env.deserialize_subroutine(body)
+        except Exception:
+            return bytes([M.MessageType.SUBROUTINE.value]) + body, "escapes", []
+
+
+FAIL_KINDS = ["sub-instr", "sub-noapp", "stop-unknown", "signal-unknown", "sub-garbage"]
+
+
+def gen_failing_conn(env, rng, app, n, allow_async):
+    """n host messages of application `app` (= one connection): InitNewApp, then succeeding and failing ones"""
+    M = env.M
+    mid = rng.choice([0, 1, 3, rng.randrange(2 ** 32 - n - 2)])
+    msgs, nq, addr = [], 0, 0          # qubits the application holds / virtual addresses it has asked for
+    for i in range(n):
+        r, v = rng.random(), 1000 * (app + 1) + i
+        if i == 0:
+            m = emsg(mid, bytes(M.InitNewAppMessage(app_id=app, max_qubits=5)), "init")
+        elif i == n - 1 and n > 2 and r < 0.35 and (nq == 0 or (nq == 1 and allow_async)):
+            if nq == 0:
+                m = emsg(mid, bytes(M.StopAppMessage(app_id=app)), "stop", barrier=True)
+            else:   # the application's qubit is measured away on the backend: the handler suspends there, and the
+                    # backend may fail — outside the executor
+                m = emsg(mid, bytes(M.StopAppMessage(app_id=app)), "stop-qubit", end=rng.choice(["ok", "escapes", "escapes"]),
+                         is_async=True, barrier=True)
+        elif r < 0.22:
+            m = emsg(mid, sub_text(env, app, ["set R0 %d" % v, "ret_reg R0"]), "sub", regs=[v])
+        elif r < 0.30:
+            m = emsg(mid, bytes(M.OpenEPRSocketMessage(app, rng.randrange(8), rng.randrange(3), rng.randrange(8), 100)), "epr")
+        elif r < 0.80:
+            kind = rng.choice(FAIL_KINDS)
+            payload, end, regs = failing_payload(env, rng, app, kind)
+            m = emsg(mid, payload, kind, end=end, regs=regs)
+        elif allow_async and addr < 4:  # suspended on the backend for a new qubit, which it may refuse
+            end, lines, regs, regs2 = rng.choice(["ok", "ok", "caught"]), [], [], []
+            if rng.random() < 0.5:
+                regs, lines = [v], ["set R0 %d" % v, "ret_reg R0"]
+            lines += ["set Q0 %d" % addr, "qalloc Q0", "set R1 %d" % (v + 500), "ret_reg R1"]
+            addr += 1
+            if end == "ok":
+                regs2, nq = [v + 500], nq + 1
+            m = emsg(mid, sub_text(env, app, lines), "sub-qalloc", end=end, regs=regs, regs2=regs2, is_async=True)
+        else:
+            m = emsg(mid, sub_text(env, app, ["set R0 %d" % v, "ret_reg R0"]), "sub", regs=[v])
+        msgs.append(m)
+        mid += 1
+    return msgs
+
+
+def gen_tail(env, rng, app):
+    """bytes that are not a host message, then possibly well-formed messages behind them: (kind, bytes)"""
+    M = env.M
+    good = [env.frame(900 + j, sub_text(env, app, ["set R0 %d" % (70 + j), "ret_reg R0"])) for j in range(2)]
+    full = rng.choice([bytes(M.OpenEPRSocketMessage(app, 1, 1, 1, 100)), sub_text(env, app, ["set R0 5", "ret_reg R0"]),
+                       bytes(M.StopAppMessage(app_id=60 + app))])
+    kind = rng.choice(["len-small", "unknown-type", "truncated", "garbage", "len-short", "len-long"])
+    if kind == "len-small":     # announced length not larger than the header
+        bad = bytes(M.MessageHeader(id=77, length=rng.randrange(0, 9))) + bytes(rng.randrange(256) for _ in range(rng.randrange(7)))
+    elif kind == "unknown-type":
+        bad = env.frame(78, bytes([rng.randrange(5, 256)]) + bytes(rng.randrange(256) for _ in range(rng.randrange(12))))
+    elif kind == "truncated":   # structure shorter than its class
+        st = bytes(M.OpenEPRSocketMessage(app, 1, 1, 1, 100))
+        bad = env.frame(79, st[:rng.randrange(1, len(st))])
+    elif kind == "garbage":
+        bad = bytes(rng.randrange(256) for _ in range(rng.randrange(1, 30)))
+    elif kind == "len-short":   # the header announces fewer bytes than the payload has
+        bad = bytes(M.MessageHeader(id=80, length=env.hdr + rng.randrange(1, len(full)))) + full
+    else:                       # ... or more
+        bad = bytes(M.MessageHeader(id=81, length=env.hdr + len(full) + rng.randrange(1, 20))) + full
+    return kind, bad + b"".join(good[:rng.randrange(3)])
+
+
+def err_stream(env, conn):
+    return stream_of(env, conn["msgs"]) + bytes.fromhex(conn.get("tail", ""))
+
+
+def err_offsets(env, conn):
+    """end offset of every planned message in the connection's stream"""
+    out, off = [], 0
+    for m in conn["msgs"]:
+        off += env.hdr + len(m["payload"]) // 2
+        out.append(off)
+    return out
+
+
+def interleave_err(rng, env, conns, chunks_per_conn, late_connect):
+    """events: connects, every connection's chunks in order, one ["K", c, i] per suspended handler some time after its
+    start (in start order: the backend serves the requests for a new qubit one at a time)"""
+    k = len(conns)
+    offs = [err_offsets(env, cn) for cn in conns]
+    opened = 1 if late_connect else k
+    evs = [["C"] for _ in range(opened)]
+    queues = [list(ch) for ch in chunks_per_conn]
+    delivered, done_msgs, owed = [0] * k, [0] * k, []
+    while any(queues) or owed or opened < k:
+        moves = [c for c in range(opened) if queues[c]]
+        opts = moves + (["K"] if owed else []) + (["C"] if opened < k else [])
+        pick = "C" if (not moves and not owed) else rng.choice(opts)
+        if pick == "C":
+            evs.append(["C"])
+            opened += 1
+        elif pick == "K":
+            evs.append(["K"] + list(owed.pop(0)))
+        else:
+            c = pick
+            ch = queues[c].pop(0)
+            n = sum(1 for o in offs[c] if o <= delivered[c] + len(ch))
+            if any(conns[c]["msgs"][j]["barrier"] for j in range(done_msgs[c], n)):
+                while owed:
+                    evs.append(["K"] + list(owed.pop(0)))
+            delivered[c] += len(ch)
+            evs.append(["D", c, ch.hex()])
+            owed += [(c, j) for j in range(done_msgs[c], n) if conns[c]["msgs"][j]["async"]]
+            done_msgs[c] = n
+    return evs
+
+
+def err_cuts(rng, env, conn):
+    """random cut positions, plus one in front of every barrier message (it must not be handled in the read that
+    starts an earlier handler of its connection)"""
+    s = err_stream(env, conn)
+    cuts = set(random_cuts(rng, len(s)))
+    offs = [0] + err_offsets(env, conn)
+    for j, m in enumerate(conn["msgs"]):
+        if m["barrier"] and offs[j] > 0:
+            cuts.add(offs[j])
+    return cut(s, sorted(cuts))
+
+
+def exec_server_err(env, case):
+    """run the events on the real classes; returns (observation, oracle complaints)"""
+    import contextvars
+    conns = case["conns"]
+    env.SharedMemoryManager.reset_memories()
+    for dc in env.reactor.getDelayedCalls():
+        dc.cancel()
+    log = []                      # one entry per handle_netqasm_message call
+    feeding = [None]
+    cur = contextvars.ContextVar("c10_cur_msg", default=None)
+    waiting = []                  # (Deferred, "new" | "meas", index into log of the handler that waits)
+    stops, complaints = [], []
+
+    class Host:
+        name, ip, port = "Alice", "localhost", 8001
+
+    class QNet:
+        hostDict = {"Alice": Host}
+
+    class RecHandler(env.SubroutineHandler):
+        def handle_netqasm_message(self, msg_id, msg):
+            idx = len(log)
+            log.append({"c": feeding[0], "id": msg_id, "msg": bytes(msg), "raw": env.last_raw[0], "end": None})
+            tok = cur.set(idx)
+            try:
+                d = super().handle_netqasm_message(msg_id=msg_id, msg=msg)
+            finally:
+                cur.reset(tok)
+
+            def ended(r):          # observation only: the result/failure is passed on unchanged
+                if isinstance(r, env.Failure):
+                    log[idx]["end"] = "escapes"
+                elif log[idx]["end"] is None:
+                    log[idx]["end"] = "ok"
+                return r
+            d.addBoth(ended)
+            return d
+
+    class Virt:
+        def remote_get_virt_num(self):
+            return 0
+
+        def remote_measure(self, inplace=True):
+            d = env.Deferred()
+            waiting.append((d, "meas", cur.get()))
+            return d
+
+    class Root:
+        def remote_new_qubit(self):
+            d = env.Deferred()
+            waiting.append((d, "new", cur.get()))
+            return d
+
+    factory = env.NetQASMFactory(Host, "Alice", QNet, RecHandler)
+    factory.set_virtual_node(Root())
+    factory.stop = lambda: stops.append(1)          # reactor.stop(): observed
+    executor = factory.backend._executor
+    real_hce = executor._handle_command_exception
+
+    def hce(exc, prog_counter, traceback_str):      # observation only
+        if cur.get() is not None:
+            log[cur.get()]["end"] = "caught"
+        return real_hce(exc, prog_counter, traceback_str)
+    executor._handle_command_exception = hce
+
+    protos, transports, failed, delivered, expected = [], [], [], [], []
+    offs = [err_offsets(env, cn) for cn in conns]
+    planned_len = [o[-1] if o else 0 for o in offs]
+    model_evs, pend = [], []          # the events in the model's terms; pend = suspended handlers in start order
+
+    def complain(kind, detail):
+        if not any(k == kind for k, _ in complaints):
+            complaints.append((kind, detail))
+
+    def complete_count(c):
+        return sum(1 for o in offs[c] if o <= delivered[c])
+
+    def log_of(c):
+        return [e for e in log if e["c"] == c]
+
+    for ev in case["events"]:
+        if ev[0] == "C":
+            p = factory.buildProtocol(None)
+            t = env.StringTransport()
+            p.makeConnection(t)
+            protos.append(p), transports.append(t), failed.append(False), delivered.append(0), expected.append([])
+            model_evs.append("C")
+        elif ev[0] == "D":
+            c, chunk = ev[1], bytes.fromhex(ev[2])
+            model_evs.append("D%d:%s" % (c, hx(chunk)))
+            if failed[c]:
+                continue                       # twisted has dropped the connection
+            before = complete_count(c)
+            delivered[c] += len(chunk)
+            feeding[0] = c
+            try:
+                protos[c].dataReceived(chunk)
+            except Exception as e:             # the deserialiser raised: twisted would drop the connection
+                failed[c] = type(e).__name__
+            feeding[0] = None
+            msgs = conns[c]["msgs"]
+            for j in range(before, complete_count(c)):
+                m = msgs[j]
+                expected[c].extend(("reg", v) for v in m["regs"])
+                if m["async"]:
+                    pend.append((c, j))
+                else:
+                    expected[c].extend(([("err",)] if m["end"] != "ok" else []) + [("done", m["id"])])
+            # promptness + order + intactness of the planned messages: judged after every read
+            want = [(m["id"], m["payload"]) for m in msgs[:complete_count(c)]]
+            got = [(e["id"], e["msg"].hex()) for e in log_of(c)]
+            if delivered[c] > planned_len[c]:
+                got = got[:len(want)]          # behind the planned messages: bytes that are not a message, no judgement
+            if got != want:
+                if [g[0] for g in got] == [w[0] for w in want]:
+                    complain("payload", "connection %d: a handled message is not the bytes that were sent" % c)
+                else:
+                    complain("handled", "connection %d: %d complete messages arrived (ids %s), handled ids %s" % (
+                        c, len(want), [w[0] for w in want], [g[0] for g in got]))
+            if failed[c] and delivered[c] <= planned_len[c]:
+                complain("raised", "connection %d: dataReceived raised %s on well-formed input" % (c, failed[c]))
+        elif ev[0] == "K":
+            c, j = ev[1], ev[2]
+            m = conns[c]["msgs"][j]
+            mine = log_of(c)
+            li = log.index(mine[j]) if j < len(mine) else None
+            w = [x for x in waiting if x[2] == li and li is not None]
+            if (c, j) in pend:
+                model_evs.append({"ok": "K", "caught": "X", "escapes": "Y"}[m["end"]] + str(pend.index((c, j))))
+                pend.remove((c, j))
+            if not w:
+                complain("suspended", "connection %d: the handler of message %d (%s) is not waiting for the backend" % (
+                    c, m["id"], m["kind"]))
+                continue
+            waiting.remove(w[0])
+            if m["end"] == "ok":
+                w[0][0].callback(Virt() if w[0][1] == "new" else 0)
+            else:
+                w[0][0].errback(env.Failure(RuntimeError("the backend refuses")))
+            expected[c].extend([("reg", v) for v in m["regs2"]] + ([("err",)] if m["end"] != "ok" else []) + [("done", m["id"])])
+    env.reactor.advance(0.5)          # a stop scheduled "in 0.1 s" happens now
+    for dc in env.reactor.getDelayedCalls():
+        dc.cancel()
+    has_tail = any(cn.get("tail") for cn in conns)
+    if stops and not has_tail:
+        complain("node-stopped", "reactor.stop() was called %d time(s): a failing message takes down every connection "
+                                 "of the node" % len(stops))
+    obs = {"conns": [], "pending": sum(1 for e in log if e["end"] is None), "model_evs": model_evs, "log": log}
+    for c in range(len(protos)):
+        rets = [("err",) if r[0] == "ErrorMessage" else r for r in env.parse_returns(transports[c].value())]
+        obs["conns"].append({
+            "handled": [e["id"] for e in log_of(c)],
+            "replies": ["e" if r[0] == "err" else "d%d" % r[1] for r in rets if r[0] in ("err", "done")],
+            "rest": len(protos[c].buf or b""), "failed": bool(failed[c])})
+        cmp_rets = rets[:len(expected[c])] if delivered[c] > planned_len[c] else rets
+        if cmp_rets != expected[c]:
+            msgs = conns[c]["msgs"]
+            silent = [m for m in msgs[:complete_count(c)] if m["end"] != "ok" and ("done", m["id"]) in expected[c]
+                      and ("done", m["id"]) not in rets]
+            mine, foreign = list(expected[c]), []
+            for r in cmp_rets:
+                if r in mine:
+                    mine.remove(r)
+                else:
+                    foreign.append(r)
+            elsewhere = [r for r in foreign if r[0] != "err" and any(r in expected[o] for o in range(len(protos)) if o != c)]
+            if silent:
+                complain("unanswered", "connection %d: message %d (%s, its handling raises %s) got no completion reply; "
+                                       "the connection holds %s, its messages call for %s" % (
+                                           c, silent[0]["id"], silent[0]["kind"],
+                                           "inside the executor" if silent[0]["end"] == "caught" else "outside the executor",
+                                           cmp_rets, expected[c]))
+            elif not foreign and not mine:
+                complain("order", "connection %d: replies %s, expected order %s" % (c, cmp_rets, expected[c]))
+            elif elsewhere:
+                complain("route", "connection %d holds replies %s; %s answer messages of another connection, "
+                                  "its own messages call for %s" % (c, cmp_rets, elsewhere, expected[c]))
+            else:
+                complain("replies", "connection %d holds replies %s, its messages call for %s" % (c, cmp_rets, expected[c]))
+    return obs, complaints
+
+
+def server_err_lines(env, case, obs):
+    """model query (None when a frame cut out of garbage is still suspended: its end is not observable) + the
+    implementation's observation in the driver's form"""
+    conns = case["conns"]
+    lists = {"async": [], "caught": [], "escapes": []}
+    for cn in conns:
+        for m in cn["msgs"]:
+            f = env.frame(m["id"], bytes.fromhex(m["payload"])).hex()
+            if m["async"]:
+                lists["async"].append(f)
+            elif m["end"] != "ok":
+                lists[m["end"]].append(f)
+    tie = True
+    for c, cn in enumerate(conns):
+        for e in [x for x in obs["log"] if x["c"] == c][len(cn["msgs"]):]:      # frames cut out of the tail
+            if e["end"] is None:
+                tie = False
+            elif e["end"] != "ok":
+                lists[e["end"]].append(env.frame(e["id"], e["raw"]).hex())
+    line = "nete %s | %s | %s | %s | %s" % (csv(env.min_sizes), " ".join(lists["async"]), " ".join(lists["caught"]),
+                                           " ".join(lists["escapes"]), " ".join(obs["model_evs"]))
+    parts = ["c%d h=%s r=%s %s" % (c, csv(o["handled"]), ",".join(o["replies"]) or "-",
+                                  "rest=- f=1" if o["failed"] else "rest=%d f=0" % o["rest"])
+             for c, o in enumerate(obs["conns"])]
+    return (line if tie else None), " ; ".join(parts + ["pending=%d" % obs["pending"]])
+
+
+def gen_server_err_cases(env, ctx):
+    rng = ctx.rng
+    M = env.M
+
+    def case(cls, conns, events):
+        return {"part": "servererr", "class": cls, "conns": conns, "events": events}
+
+    def one_conn(cls, msgs, cuts):
+        s = stream_of(env, msgs)
+        return case(cls, [{"msgs": msgs}], [["C"]] + [["D", 0, ch.hex()] for ch in cut(s, cuts)])
+    # (1) the smallest shapes first: one failing message alone; then with a message before and behind it, in one read
+    for kind in FAIL_KINDS:
+        payload, end, regs = failing_payload(env, rng, 0, kind)
+        # (no InitNewApp: a subroutine fails at its first instruction, before it returns anything)
+        yield one_conn("err-minimal", [emsg(7, payload, kind, end=end)], [])
+    # (2) every cut (and pairs of cuts) of: InitNewApp, a failing message, a succeeding subroutine
+    for kind in FAIL_KINDS:
+        for rep in range(ctx.scale(1, 3)):
+            payload, end, regs = failing_payload(env, rng, 0, kind)
+            mid = rng.choice([0, 5, rng.randrange(2 ** 32 - 4)])
+            msgs = [emsg(mid, bytes(M.InitNewAppMessage(app_id=0, max_qubits=5)), "init"),
+                    emsg(mid + 1, payload, kind, end=end, regs=regs),
+                    emsg(mid + 2, sub_text(env, 0, ["set R0 11", "ret_reg R0"]), "sub", regs=[11])]
+            n = len(stream_of(env, msgs))
+            pairs = list(itertools.combinations(range(1, n), 2))
+            if len(pairs) > ctx.scale(60, 100000):
+                pairs = rng.sample(pairs, ctx.scale(60, 100000))
+            for cs in [[]] + [[i] for i in range(1, n)] + [list(p) for p in pairs]:
+                yield one_conn("err-exhaustive", msgs, cs)
+    # (3) random: 1-3 connections, failing and succeeding messages, suspended handlers the backend lets down
+    for _ in range(ctx.scale(450, 6000)):
+        k = rng.choice([1, 2, 2, 3])
+        conns = [{"msgs": gen_failing_conn(env, rng, a, rng.randint(1, 8), allow_async=True)} for a in range(k)]
+        chunks = [err_cuts(rng, env, cn) for cn in conns]
+        yield case("err-random-%d" % k, conns, interleave_err(rng, env, conns, chunks, rng.random() < 0.4))
+    # (4) one connection's stream turns into bytes that are not a message; the others carry on
+    for _ in range(ctx.scale(200, 2500)):
+        k = rng.choice([1, 2, 2, 3])
+        conns = [{"msgs": gen_failing_conn(env, rng, a, rng.randint(1, 5), allow_async=(a != 0))} for a in range(k)]
+        kind, tail = gen_tail(env, rng, 0)
+        conns[0]["tail"] = tail.hex()
+        chunks = [err_cuts(rng, env, cn) for cn in conns]
+        yield case("err-badframe-%s" % kind, conns, interleave_err(rng, env, conns, chunks, rng.random() < 0.3))
+
+EXEC = {"server": exec_server, "client": exec_client, "socket": exec_socket, "servererr": exec_server_err}
 WHAT = {
     "server:handled": "a complete host message was not handled (once, in order) when its last byte had arrived",
     "server:payload": "a host message was handed to the handler with other bytes than were sent",
@@ -807,11 +1261,22 @@ WHAT = {
     "client:extra": "_handle_reply produced something from an empty stream",
     "socket:stream": "a receive on an application socket did not return exactly the next message sent",
     "socket:phantom": "a receive returned a message although nothing was outstanding",
+    "servererr:unanswered": "a complete host message whose handling failed got no completion reply on its connection",
+    "servererr:node-stopped": "the failure of one message stopped the node's reactor (every connection of the node)",
+    "servererr:handled": "a complete host message was not handled (once, in order) when its last byte had arrived "
+                         "(stream with failing messages)",
+    "servererr:payload": "a host message was handed to the handler with other bytes than were sent (stream with failing messages)",
+    "servererr:route": "a reply (Done or Error) was written to another host connection than the one its message arrived on",
+    "servererr:order": "replies on a connection are not in completion order (stream with failing messages)",
+    "servererr:replies": "a handled message did not get exactly its replies (returned registers, Error iff its handling "
+                         "raised, one Done with its id)",
+    "servererr:raised": "dataReceived raised on a stream of well-framed messages (some of which fail in the handler)",
+    "servererr:suspended": "a handler that waits for the backend was not found waiting",
 }
 
 
 def case_size(case):
-    if case["part"] == "server":
+    if case["part"] in ("server", "servererr"):
         return sum(len(e[2]) // 2 for e in case["events"] if e[0] == "D") + 3 * len(case["events"])
     if case["part"] == "client":
         return sum(len(str(g)) for g in case["groups"]) + len(case["choices"])
@@ -825,13 +1290,17 @@ def run(ctx):
                 "messages, random streams of 1-9 messages per connection x random cuts x random interleavings with "
                 "suspended handlers, malformed tails (tie only); client: every single/double cut of short reply streams, "
                 "random groups x random read sizes, >1000 reads in one call; socket: the two F7 shapes, random send/recv "
-                "interleavings x adversarial read prefixes (1 B .. 64 KiB), real socketpair; non-trivial = more than one "
+                "interleavings x adversarial read prefixes (1 B .. 64 KiB), real socketpair; servererr: each kind of failing "
+                "message alone, every single cut and sampled double cuts of init/failing/succeeding, random 1-8 messages x "
+                "1-3 connections with 5 kinds of synchronous failure and 2 of failure after a suspension, one connection "
+                "turning into non-message bytes (6 kinds) while the others carry on; non-trivial = more than one "
                 "message or more than one read; distinct by full case content")
     if ctx.replay and isinstance(ctx.replay.get("input"), dict) and ctx.replay["input"].get("part") in EXEC:
         cases = [ctx.replay["input"]]
     else:
-        cases = itertools.chain(gen_server_cases(env, ctx), gen_client_cases(env, ctx), gen_socket_cases(env, ctx))
-    lines, expect = [], []
+        cases = itertools.chain(gen_server_cases(env, ctx), gen_client_cases(env, ctx), gen_socket_cases(env, ctx),
+                                gen_server_err_cases(env, ctx))
+    lines, expect = {"framing": [], "framingerr": []}, {"framing": [], "framingerr": []}
     worst = {}                       # key -> (size, what, case): the smallest failing input per signature
     for case in cases:
         part = case["part"]
@@ -843,31 +1312,55 @@ def run(ctx):
         elif part == "client":
             line, impl = client_lines(env, case, obs)
             nontrivial = len(case["groups"]) > 1 or len(case["choices"]) > 1
+        elif part == "servererr":
+            line, impl = server_err_lines(env, case, obs)
+            nontrivial = sum(len(c["msgs"]) for c in case["conns"]) > 1 or len(case["events"]) > 2
         else:
             line, impl = socket_lines(env, case, obs)
             nontrivial = len(case["ops"]) > 2
         res.case({k: v for k, v in case.items() if k != "class"}, nontrivial=nontrivial)
         res.count("%s:%s" % (part, case.get("class", "replay")))
-        lines.append(line)
-        expect.append((impl, case))
+        model = "framingerr" if part == "servererr" else "framing"
+        if line is None:
+            res.count("servererr:tie-skipped (a frame cut out of garbage is still suspended)")
+        else:
+            lines[model].append(line)
+            expect[model].append((impl, case))
         for kind, detail in complaints:
             key = "%s:%s" % (part, kind)
             sz = case_size(case)
             if key not in worst or sz < worst[key][0]:
                 worst[key] = (sz, "%s — %s" % (WHAT.get(key, key), detail), case)
-    first = ["server:handled", "server:route", "socket:stream", "client:reassembly", "server:payload"]
+    first = ["server:handled", "server:route", "socket:stream", "client:reassembly", "server:payload", "servererr:unanswered"]
     for key in sorted(worst, key=lambda k: (first.index(k) if k in first else len(first), k)):
         _, what, case = worst[key]
         res.violation(key, what, case)
-    if ctx.lean_ok and lines:
-        out = core.lean_run("framing", lines)
-        for got, (want, case) in zip(out, expect):
+    for model in ("framing", "framingerr"):
+        if not (ctx.lean_ok and lines[model]):
+            continue
+        out = core.lean_run(model, lines[model])
+        for got, (want, case) in zip(out, expect[model]):
             res.traces += 1
             if got != want:
                 if len(res.tie_breaks) < 20:
                     res.tie_break("Framing model vs %s" % case["part"], case, got[:400], want[:400])
                 else:
                     res.tie_breaks.append({"what": "more", "input": None, "model": "", "impl": ""})
+    res.notes.append(
+        "failing messages (observed, fix-c10-err): a handler that raises inside the executor is answered Error+Done by the "
+        "executioner; one that raises outside it (StopApp of an application that is not open, unknown signal, subroutine "
+        "that cannot be deserialised, backend failure while an application is stopped) by log_error, Error+Done on the "
+        "arrival connection; InitNewApp of an open application and OpenEPRSocket of an unknown application succeed (Done)")
+    res.notes.append(
+        "bytes that are not a message (no judgement): a complete frame the deserialiser rejects (unknown type byte, "
+        "structure shorter than its class, header length <= 8) makes _parse_message raise out of dataReceived with the "
+        "frame left in the buffer: twisted drops that connection, the messages complete before the frame were handled "
+        "and answered, nothing behind it is handled, other connections carry on; a header announcing more bytes than "
+        "the message has swallows the following messages as payload (struct types ignore the excess), one announcing "
+        "fewer cuts the payload short and reads the next header out of the remainder")
+    res.notes.append(
+        "after a STOP signal QNodeController._finished stays set: every later message on that node calls factory.stop() "
+        "again after its Done (outside the property; not generated)")
     return res
 
 
